@@ -153,6 +153,10 @@ def formatter_level(check, P):
             parts = list(sv.parts)
             texts = [p for p in parts if isinstance(p, Text)]
             lits = [p.text for p in parts if isinstance(p, Lit)]
+            lost = [p for p in parts if not isinstance(p, Lit) and not (isinstance(p, Text) and p.name == "arg.text") and "arg.text" in repr(p)]
+            if lost:
+                check.undecided("R1", f"style {sym!r}: the comment text is {repr(lost[0])[:120]}: an operation on the caller's text that the analysis does not model")
+                continue
             if len(texts) != 1 or texts[0].name != "arg.text" or any(not isinstance(p, (Lit, Text)) for p in parts):
                 check.violation("R1", f"style:{sym}:shape", f"comment() for style {sym!r} yields {sv!r}, expected <opening> <text> [<closing>]", d)
                 continue
